@@ -1713,3 +1713,8 @@ Proof.
 Qed.
 
 End WithCfg.
+
+(* data of the non-vacuity example in Props/C15.v *)
+Definition ex_cfg : cfg := mkCfg true true false true true false.
+Definition ex_first (u : string) : first_msg := mkFirst 32 true (Some (u ++ ":peer")%string) "BIND"%string.
+Definition ex_bad : first_msg := mkFirst 600 true (Some "u1:peer"%string) "BIG"%string.
